@@ -12,7 +12,7 @@ from dump import dump_expr, dump_pred, dump_property, dump_any, canon_str, class
 
 S = Sym
 PROPERTY = 'C03'
-PROPS_MODULES = ['C03', 'C03b', 'C03c', 'C03d']
+PROPS_MODULES = ['C03', 'C03b', 'C03c', 'C03d', 'C03e']
 ASSUMPTIONS = ['float literals are compared by value (12 significant digits), not by token',
                'rewriting functions that raise are the subject of C14, not of this check']
 
